@@ -1661,8 +1661,8 @@ class Memoer(Tymee):
                           to fuse memo. Headers have been stripped.
             cnt (int): gram count for mid
         """
-        if len(grams) < cnt:  # must be missing one or more grams
-            return None
+        if len(grams) < cnt or any(i not in grams for i in range(cnt)):
+            return None  # must be missing one or more grams
 
         memo = bytearray()
         for i in range(cnt):  # iterate in numeric order, items are insertion ordered
@@ -1683,7 +1683,16 @@ class Memoer(Tymee):
             # if mid then grams dict at mid must not be empty
             if not mid in self.counts:  # missing first gram so skip
                 continue
-            memo = self.fuse(self.rxgs[mid], self.counts[mid])
+            try:
+                memo = self.fuse(self.rxgs[mid], self.counts[mid])
+            except ValueError as ex:  # complete but not decodable so drop
+                logger.error("Invalid Memoer memo from %s.\n %s.",
+                             self.sources[mid], ex)
+                del self.rxgs[mid]
+                del self.counts[mid]
+                del self.sources[mid]
+                del self.vids[mid]
+                continue
             if memo is not None:  # allows for empty "" memo for some src
                 self.rxms.append((memo, self.sources[mid], self.vids[mid]))
                 del self.rxgs[mid]
